@@ -186,14 +186,43 @@ def doc_value(case, pos):
     return sum(c["coeff"] * geom(case, c, pos)[0] for c in case["comps"])
 
 
-def doc_fj(case, pos):
+def T_at(case, t):
+    """temperature in force at step t (it may be changed between steps)"""
+    T = case["T"]
+    for s in case["steps"][:t + 1]:
+        if "T" in s:
+            T = s["T"]
+    return T
+
+
+def sub_at(case, t):
+    sub = case["sub"]
+    for s in case["steps"][:t + 1]:
+        if "subset" in s:
+            sub = s["subset"]
+    return sub
+
+
+def coeffs_at(case, t):
+    """coefficients of the components (configuration order) in force at step t (modifycvcs may change them)"""
+    cf = [c["coeff"] for c in case["comps"]]
+    for s in case["steps"][:t + 1]:
+        if "coeffs" in s:
+            cf = list(s["coeffs"])
+    return cf
+
+
+def doc_fj(case, pos, T=None, coeffs=None):
     """the documented Jacobian force: kT * sum_i c_i jd_i / sum_i c_i^2"""
-    if case["T"] == 0.0:
+    T = case["T"] if T is None else T
+    if T == 0.0:
         return 0.0
+    cf = coeffs if coeffs is not None else [c["coeff"] for c in case["comps"]]
+    sq = sum(k * k for k in cf)
     s = 0.0
-    for c in case["comps"]:
-        s += geom(case, c, pos)[1] * c["coeff"] / sqnorm(case)
-    return s * (BOLTZ * case["T"])
+    for c, k in zip(case["comps"], cf):
+        s += geom(case, c, pos)[1] * k / sq
+    return s * (BOLTZ * T)
 
 
 def regular(case, pos):
@@ -308,6 +337,9 @@ def config_text(case, with_other=True, with_bias=True):
         L += ["histogram {", "  name h", "  colvars v", "}"]
     if with_bias:
         L += bias_block(case)
+    if case.get("bias2") is not None:
+        # a second bias on the same variable: the forces add up, and the variable keeps applying a force while the first one is off
+        L += ["linear {", "  name b2", "  colvars v", "  centers 0.0", "  forceConstant %r" % case["bias2"], "}"]
     return L
 
 
@@ -317,6 +349,8 @@ def scenario(case, k):
         L.append("mass %d %s" % (i + 1, hx(m)))
     L += ["temperature %r" % case["T"], "samestep %d" % case["same"], "includecv %d" % case["inc"], "totalforces 1",
           ("cell %r %r %r" % tuple(case["cell"])) if case.get("cell") else "nocell", "new"]
+    if case.get("it0"):
+        L.append("setstep %d" % case["it0"])
     late = case.get("late", 0)
     if late:
         # the variable is defined while the simulation runs: `late` steps with another variable only
@@ -338,6 +372,18 @@ def scenario(case, k):
                 L += ["config EOF"] + bias_block(case) + ["EOF"]
             else:
                 L.append("script cv bias b delete")
+        if s.get("badcfg"):
+            # a configuration that is rejected in the middle of the session must leave the variable as it was
+            L += ["echo BADCFG", "config EOF", "colvar {", "  name bad", "  outputTotalForce on", "  distance {", "    group1 {", "      atomNumbers 99999", "    }",
+                  "    group2 {", "      atomNumbers 1", "    }", "  }", "}", "EOF"]
+        if "T" in s:
+            L.append("temperature %r" % s["T"])          # the engine changes its target temperature between two steps
+        if "coeffs" in s:
+            # `cv colvar v modifycvcs`: new coefficients; the configuration strings go in the implementation's component order
+            order = sorted(range(len(case["comps"])), key=lambda i: case["comps"][i]["kind"])
+            L.append("modcvc v " + " | ".join("componentCoeff %r" % s["coeffs"][i] for i in order))
+        if "subset" in s:
+            L.append("script cv colvar v set subtract_applied_force_from_total_force %d" % (1 if s["subset"] else 0))
         for i, p in enumerate(s["pos"]):
             L.append("pos %d %s %s %s" % (i + 1, hx(p[0]), hx(p[1]), hx(p[2])))
         ef = s["ef"]
@@ -373,6 +419,10 @@ def parse_impl(lines):
         if l.startswith("echo END"):
             cs["complete"] = True
             cur = None
+        elif l.startswith("echo BADCFG"):
+            cs["skipcfg"] = True
+        elif w[0] == "CONFIG" and cs.pop("skipcfg", False):
+            cs["badcfg_seen"] = l
         elif w[0] == "CONFIG":
             cs["config"] = l if (cs["config"] is None or "err=ok" in cs["config"]) else cs["config"]
         elif w[0] == "STEP":
@@ -419,7 +469,7 @@ def periodic(case):
 
 def applies(case, t):
     """some bias applies a force to the variable at step t (f_cv_apply_force)"""
-    return case["bias"]["type"] != "none" and not case["steps"][t].get("off")
+    return (case["bias"]["type"] != "none" and not case["steps"][t].get("off")) or case.get("bias2") is not None
 
 
 def bias_force(case, value):
@@ -488,8 +538,10 @@ def model_line(case, isteps):
     for t, s in enumerate(case["steps"]):
         p.append(vl(s["pos"]))
         p.append(vl(step_eforce(case, isteps, t)))
-        p.append(hx(bias_force(case, isteps[t]["cv"].get("v", float("nan"))) if applies(case, t) else 0.0))
+        fb1 = bias_force(case, isteps[t]["cv"].get("v", float("nan"))) if (case["bias"]["type"] != "none" and not s.get("off")) else 0.0
+        p.append(hx(fb1 + (-case["bias2"] if case.get("bias2") is not None else 0.0)))
         p.append("1" if applies(case, t) else "0")
+        p += [hx(BOLTZ * T_at(case, t)), "1" if case["hide"] else "0", "1" if sub_at(case, t) else "0"] + [hx(k) for k in coeffs_at(case, t)]
         for ci in rot_indices(case):
             p.append(rot_txt(isteps[t].get("rot", {}).get(ci, [1.0, 0.0, 0.0, 0.0, 0.0, 0]), True))
     return " ".join(p)
@@ -616,8 +668,8 @@ def inverse_ok(case):
 
 
 def gen_case(r, idx, typ=None, kinds=None):
-    typ = typ or r.choice(["INV", "INV", "LIN", "LOC", "TIM", "RND", "OFF"])
-    ncomp = 1 if r.random() < 0.7 else 2
+    typ = typ or r.choice(["INV", "INV", "LIN", "LOC", "TIM", "RND", "OFF", "PAR"])
+    ncomp = r.choice([1, 1, 1, 1, 1, 1, 2, 2, 2, 3])
     kinds = kinds or [r.choice(KINDS) for _ in range(ncomp)]
     overlap = typ == "RND" and r.random() < 0.3
     nvar = sum(BLOCK.get(k, 5) for k in kinds)
@@ -633,6 +685,10 @@ def gen_case(r, idx, typ=None, kinds=None):
         c, _ = gen_comp(r, k, list(range(a0, a0 + nk)), overlap)
         a0 += nk
         comps.append(c)
+    if len(comps) == 3:
+        cs = r.choice([[1.0, -1.0, 1.0], [-1.0, -1.0, -1.0], [1.0, 2.0, 1.0], [1.0, 1.0, -1.0], [0.5, 1.0, 0.5]])    # the odd one in the middle
+        for c_, k_ in zip(comps, cs):
+            c_["coeff"] = k_
     if len(comps) == 2:
         cs = r.choice([[1.0, 1.0], [1.0, -1.0], [-1.0, 1.0], [-1.0, -1.0], [2.0, -0.5], [0.5, 1.0]])
         comps[0]["coeff"], comps[1]["coeff"] = cs
@@ -670,8 +726,10 @@ def gen_case(r, idx, typ=None, kinds=None):
                 return p
         return None
 
+    fscale = 2.0 ** 26 if r.random() < 0.1 else 1.0        # engine forces eight orders of magnitude larger
+
     def field(on=None):
-        return [rfor(r) if (on is None or (a + 1) in on) else [0.0, 0.0, 0.0] for a in range(n)]
+        return [vsc(fscale, rfor(r)) if (on is None or (a + 1) in on) else [0.0, 0.0, 0.0] for a in range(n)]
 
     zero = [[0.0, 0.0, 0.0] for _ in range(n)]
     P = [geometry() for _ in range(4)]
@@ -706,6 +764,32 @@ def gen_case(r, idx, typ=None, kinds=None):
         E = [field() for _ in range(4)]
         steps = [{"pos": P[0], "ef": E[0]}, {"pos": P[1], "ef": E[1]}, {"pos": P[0], "ef": E[0]},
                  {"pos": P[2], "ef": E[2]}, {"pos": P[3], "ef": E[3]}]
+    elif typ == "PAR":
+        # parameters change during the run: target temperature (positive -> 0 -> positive) by the engine, subtractAppliedForce
+        # by script; the atoms get exactly Colvars' forces so that the inverse oracle applies at every step
+        if case["bias"]["type"] == "none":
+            case["bias"] = {"type": "linear", "k": 2.0}
+        if not case["same"]:
+            case["inc"] = 1
+        temps = r.choice([[300.0, None, 0.0, None, 512.0, None, 0.0], [0.0, None, None, 300.0, None, 0.0, None], [512.0, 0.0, 300.0, 0.0, 512.0, None, None]])
+        case["T"] = temps[0]
+        k_sub = r.randint(2, 5) if (not case["same"] and r.random() < 0.6) else None
+        k_cf = r.randint(2, 5) if (not case["same"] and not periodic(case) and r.random() < 0.4) else None     # modifycvcs mid-run
+        steps = []
+        for i in range(7):
+            st = {"pos": P[i % 4], "ef": (zero if not case["same"] else field())}
+            if i > 0 and temps[i] is not None:
+                st["T"] = temps[i]
+            if k_sub is not None and i == k_sub:
+                st["subset"] = not case["sub"]
+            if k_cf is not None and i == k_cf:
+                st["coeffs"] = [kk * r.choice([2.0, 0.5, -1.0, 3.0]) if j == 0 else kk for j, kk in enumerate(c_["coeff"] for c_ in comps)]
+            steps.append(st)
+        if case["same"]:
+            # same-step: every second step hands the forces applied at the previous one back
+            for i in range(1, 7, 2):
+                steps[i]["pos"] = steps[i - 1]["pos"]
+                steps[i]["ef"] = {"back": 1.0}
     elif typ == "OFF":
         # the bias applies its force at some steps only (apply_force switched off and on again while the variable stays
         # active and measured): the applied force is zero between non-zero ones
@@ -716,13 +800,22 @@ def gen_case(r, idx, typ=None, kinds=None):
         case["offmode"] = r.choice(["toggle", "toggle", "tsf", "define"])
         pat = r.choice([[0, 1, 0, 0, 1, 1, 0], [0, 0, 1, 0, 1, 0], [1, 0, 0, 1, 1, 0]])
         if case["offmode"] == "tsf":
-            case["tsf"] = 2
+            case["tsf"] = r.choice([2, 3, 5])          # also factors that are not powers of two
             case.pop("late", None)
-            pat = [0, 1, 0, 1, 0, 1, 0]            # awake at the even steps of the run
+            pat = [0 if i % case["tsf"] == 0 else 1 for i in range(7)]     # awake when step_absolute is a multiple of the factor
         steps = [{"pos": P[i % 4], "ef": (zero if r.random() < 0.5 else field()), "off": bool(o)} for i, o in enumerate(pat)]
     else:
         steps = [{"pos": P[i % 4], "ef": field() if r.random() < 0.7 else zero} for i in range(r.randint(2, 5))]
     case["steps"] = steps
+    if typ in ("INV", "OFF", "TIM", "RND", "PAR") and not periodic(case) and r.random() < 0.2:
+        case["bias2"] = V.dyadic(r, -3, 3, bits=2) or 1.5
+    if r.random() < 0.2:
+        # absolute step numbers beyond 2^31, 2^32, 2^53 and near 2^62
+        case["it0"] = r.choice([2 ** 31 - 2, 2 ** 31 + 3, 2 ** 32 + 5, 2 ** 53 + 1, 2 ** 62 - 9])
+        if case.get("tsf"):
+            case["it0"] -= case["it0"] % case["tsf"]        # keep the bias awake at the first step of the pattern
+    if typ in ("LIN", "LOC", "TIM", "RND", "INV") and r.random() < 0.15 and len(steps) > 2:
+        steps[r.randint(1, len(steps) - 1)]["badcfg"] = True
     case["invok"] = inverse_ok(case)
     return case
 
@@ -779,6 +872,7 @@ def div_case(r, kind, rotate=False):
     c.update({"type": "DIV", "T": 0.0, "hide": False, "sub": False, "same": 1, "inc": 0, "bias": {"type": "none"}, "invok": False})
     c.pop("tsf", None)
     c.pop("offmode", None)
+    c.pop("bias2", None)
     n = c["n"]
     P = c["steps"][0]["pos"]
     zero = [[0.0, 0.0, 0.0] for _ in range(n)]
@@ -837,6 +931,10 @@ def delivered_is_own(case, t):
     return None
 
 
+def typ_par(case):
+    return case.get("type") == "PAR"
+
+
 def oracle(case, isteps):
     out = []
     kd = kinds_of(case)
@@ -855,16 +953,23 @@ def oracle(case, isteps):
             s0 = delivered_is_own(case, t)
             if s0 is None:
                 continue
-            fj = doc_fj(case, case["steps"][s0]["pos"])
+            fj = doc_fj(case, case["steps"][s0]["pos"], T_at(case, s0), coeffs_at(case, s0))      # Jacobian term of the step reported, at its temperature
             f = afs[s0]
+            sub_t = sub_at(case, t)
             if case["same"]:
+                # same step: the Jacobian term is that of the step of the report (same geometry), at its temperature
+                fj = doc_fj(case, case["steps"][t]["pos"], T_at(case, t), coeffs_at(case, t))
                 exp = f + (0.0 if case["hide"] else fj)
             else:
                 comp = case["hide"] and applies(case, s0)
-                exp = f + (fj if not (case["hide"] and (case["sub"] or not comp)) else 0.0) - (f if case["sub"] else 0.0)
+                exp = f + (fj if not (case["hide"] and (sub_t or not comp)) else 0.0) - (f if sub_t else 0.0)
             if not close(tfs[t], exp, 1e-8):
-                tag = "hidden" if case["hide"] else ("T0" if case["T"] == 0 else "jacobian")
-                out.append(("inverse:%s:%s:%s%s" % (kd, mode, tag, ":subtract" if case["sub"] else ""),
+                tag = "hidden" if case["hide"] else ("T0" if T_at(case, s0) == 0 else "jacobian")
+                if typ_par(case):
+                    tag += ":parameter-change"
+                if coeffs_at(case, t) != coeffs_at(case, s0):
+                    tag += ":coefficients-changed"      # modifycvcs between the step reported and the report
+                out.append(("inverse:%s:%s:%s%s" % (kd, mode, tag, ":subtract" if sub_t else ""),
                             "step %d: the atoms experienced exactly the forces applied for the variable force %r; reported total force %r, "
                             "expected %r (applied force %s documented Jacobian term %r%s)" % (
                                 t, f, tfs[t], exp, "without the hidden" if case["hide"] else "plus the", fj,
@@ -933,7 +1038,7 @@ def oracle_twin(case, isteps, twin_steps):
             exp = 0.0
         else:
             exp = on[t - 1]["af"]["v"] + (doc_fj(case, case["steps"][t - 1]["pos"]) if (case["hide"] and applies(case, t - 1)) else 0.0)
-        if not close(a - b, exp, 1e-8):
+        if abs((a - b) - exp) > 1e-8 * max(1.0, abs(a), abs(b), abs(exp)):       # relative to the magnitude of the two reports
             out.append(("subtract:%s:%s%s" % (kd, "samestep" if case["same"] else "lagged", ":hidden" if case["hide"] else ""),
                         "step %d: total force without / with subtractAppliedForce %r / %r, difference %r; Colvars' own applied force "
                         "of the step reported is %r" % (t, a, b, a - b, exp)))
@@ -1015,6 +1120,15 @@ def process(run, runner, cases, sample=0):
         mode = "samestep" if c["same"] else "lagged"
         run.dist("type:%s" % c["type"])
         run.dist("mode:%s" % mode)
+        for key, on in (("option:step>=2^31", c.get("it0")), ("option:second-bias", c.get("bias2") is not None),
+                        ("option:rejected-config-mid-run", any(st.get("badcfg") for st in c["steps"])),
+                        ("option:3-components", len(c["comps"]) == 3), ("option:timeStepFactor-%s" % c.get("tsf"), c.get("tsf")),
+                        ("option:offmode-%s" % c.get("offmode"), c.get("offmode")), ("option:forceNoPBC", c.get("nopbc")),
+                        ("option:late-definition", c.get("late")), ("option:no-bias", c["bias"]["type"] == "none"),
+                        ("option:temperature-change", any("T" in st for st in c["steps"])),
+                        ("option:subtract-toggled", any("subset" in st for st in c["steps"]))):
+            if on:
+                run.dist(key)
         for cc in c["comps"]:
             run.dist("kind:%s%s" % (cc["kind"], ":onesite" if cc.get("onesite") else ""))
             if cc.get("perms"):
@@ -1037,8 +1151,10 @@ def process(run, runner, cases, sample=0):
         if "err=ok" not in cs["config"] or len(cs["steps"]) != len(c["steps"]) or any(s["err"] != "err=ok" for s in cs["steps"]):
             run.mismatch("config:%s" % kd, {"case": c}, [cs["config"]] + [s["err"] for s in cs["steps"]], "accepted, all steps ok")
             continue
+        if any(st.get("badcfg") for st in c["steps"]) and "err=ok" in (cs.get("badcfg_seen") or "err=ok"):
+            run.mismatch("config:rejected:%s" % kd, {"case": c}, cs.get("badcfg_seen"), "the invalid configuration is rejected")
         isteps = cs["steps"]
-        nontriv = c.get("invok", False) and any(delivered_is_own(c, t) is not None for t in range(len(isteps))) or c["type"] in ("LIN", "LOC", "TIM", "ZERO", "ROT", "OFF", "DIV")
+        nontriv = c.get("invok", False) and any(delivered_is_own(c, t) is not None for t in range(len(isteps))) or c["type"] in ("LIN", "LOC", "TIM", "ZERO", "ROT", "OFF", "DIV", "PAR")
         run.count(json.dumps(c, sort_keys=True), bool(nontriv) and any(s["tf"].get("v") not in (None, 0.0) for s in isteps))
         for sig, text in oracle(c, isteps):
             run.violation(sig, text, rp)
@@ -1166,6 +1282,12 @@ def check(run):
             while c is None or c["same"] or c.get("offmode") != want:
                 c = gen_case(r, 0, "OFF", [kind])
             c["sub"] = sub
+            first.append(c)
+    for kind in ("distance", "gyration", "angle", "distanceXY"):       # temperature / subtractAppliedForce changed mid-run
+        for same in (0, 1):
+            c = None
+            while c is None or c["same"] != same or c["hide"]:
+                c = gen_case(r, 0, "PAR", [kind])
             first.append(c)
     for rep in range(1 if quick else 12):                 # Jacobian derivative = divergence of the inverse gradient field
         for kind in KINDS:
